@@ -24,6 +24,9 @@ AUTH == "authorization"
 
 VARIABLES l, sem, pats, bad, known, block, failStatus, stats, pos
 vars == <<l, sem, pats, bad, known, block, failStatus, stats, pos>>
+\* The monitor is a deterministic chain, one state per consumed event: fingerprinting the position alone (cfg: VIEW TraceView)
+\* keeps validation linear however large `bad`, the references or the block grow.
+TraceView == l
 
 Ev(e) == l <= Len(Trace) /\ Trace[l].ev = e /\ l' = l + 1
 
@@ -163,6 +166,10 @@ Config == /\ Ev("Config")
           /\ UNCHANGED <<bad, known, block, failStatus, stats, pos>>
 Rejected == /\ l <= Len(Trace) /\ Trace[l].ev \in {"Rejected", "Names"} /\ l' = l + 1
             /\ UNCHANGED <<sem, pats, bad, known, block, failStatus, stats, pos>>
+\* a handler that calls back into its own middleware (Config, SetDebug, Reconfigure(Config())) never returned: its response
+\* does not reach the client (C11)
+Hang == /\ Ev("Hang") /\ bad' = (IF Prop = "C11" THEN bad \cup {l} ELSE bad)
+        /\ UNCHANGED <<sem, pats, known, block, failStatus, stats, pos>>
 Panic == Ev("Panic") /\ UNCHANGED <<sem, pats, bad, known, block, failStatus, stats, pos>>   \* C17's business
 BlockStart == /\ Ev("Block")
               /\ block' = IF Prop = "C09" /\ Trace[l].dbg THEN block ELSE <<>>   \* C09: the debug-on block is compared
@@ -217,7 +224,7 @@ Serve ==
 
 Init == l = 1 /\ sem = [pass |-> TRUE] /\ pats = {} /\ bad = {} /\ known = {} /\ block = <<>> /\ failStatus = 0
         /\ stats = [a |-> 0, b |-> 0] /\ pos = 1
-Next == Config \/ Rejected \/ Panic \/ BlockStart \/ BlockEnd \/ Serve
+Next == Config \/ Rejected \/ Panic \/ Hang \/ BlockStart \/ BlockEnd \/ Serve
 Spec == Init /\ [][Next]_vars
 
 Final == (l = Len(Trace) + 1) =>
